@@ -4,9 +4,12 @@ mod core;
 mod c01;
 mod c02;
 mod c03;
+mod c04;
+mod c04s;
 mod c13;
 mod c14;
 mod c15;
+mod c16;
 mod plonkm;
 mod tamper;
 
@@ -81,7 +84,9 @@ fn main() {
         "C01" => c01::run(&ctx),
         "C02" => c02::run(&ctx),
         "C03" => c03::run(&ctx),
+        "C04" => c04::run(&ctx),
         "C13" => c13::run(&ctx),
+        "C16" => c16::run(&ctx),
         "C14" => c14::run(&ctx),
         "C15" => c15::run(&ctx),
         _ => {
